@@ -324,8 +324,9 @@ func (in *inst) file(f *ast.File) []byte {
 	return append(out, in.src[pos:]...)
 }
 
-func main() {
-	dir, _ := filepath.Abs(os.Args[1])
+// instrumentDir instruments the packages of one module directory whose package
+// name is in names; site ids continue in sites.
+func instrumentDir(dir string, names map[string]bool, sites *[]string, root string) int {
 	cfg := &packages.Config{Mode: packages.NeedName | packages.NeedFiles | packages.NeedSyntax | packages.NeedTypes | packages.NeedTypesInfo | packages.NeedImports | packages.NeedDeps, Dir: dir}
 	pkgs, err := packages.Load(cfg, "./...")
 	if err != nil {
@@ -342,11 +343,10 @@ func main() {
 	if bad {
 		os.Exit(2)
 	}
-	var sites []string
 	n := 0
 	sort.Slice(pkgs, func(i, j int) bool { return pkgs[i].PkgPath < pkgs[j].PkgPath })
 	for _, p := range pkgs {
-		if !want[p.Name] || strings.HasSuffix(p.PkgPath, "/simrt") {
+		if !names[p.Name] || strings.HasSuffix(p.PkgPath, "/simrt") {
 			continue
 		}
 		for _, f := range p.Syntax {
@@ -359,14 +359,14 @@ func main() {
 				fmt.Println("FATAL read:", err)
 				os.Exit(2)
 			}
-			before := len(sites)
-			in := &inst{pkg: p, fset: p.Fset, src: src, sites: &sites, root: dir}
+			before := len(*sites)
+			in := &inst{pkg: p, fset: p.Fset, src: src, sites: sites, root: root}
 			out := in.file(f)
 			for _, w := range in.warn {
 				fmt.Println("WARN", w)
 			}
 			if out == nil {
-				sites = sites[:before]
+				*sites = (*sites)[:before]
 				continue
 			}
 			if err := os.WriteFile(name, out, 0o644); err != nil {
@@ -375,6 +375,25 @@ func main() {
 			}
 			n++
 		}
+	}
+	return n
+}
+
+// usage: instrument <repo-copy> [<extra-module-dir>:<pkgname,pkgname>...]
+func main() {
+	dir, _ := filepath.Abs(os.Args[1])
+	var sites []string
+	n := instrumentDir(dir, want, &sites, dir)
+	for _, extra := range os.Args[2:] {
+		f := strings.SplitN(extra, ":", 2)
+		d, _ := filepath.Abs(f[0])
+		names := map[string]bool{}
+		if len(f) > 1 {
+			for _, x := range strings.Split(f[1], ",") {
+				names[x] = true
+			}
+		}
+		n += instrumentDir(d, names, &sites, dir)
 	}
 	var gen strings.Builder
 	gen.WriteString("package simrt\n\nfunc init() { SiteTable = []string{\"\",\n")
